@@ -23,14 +23,22 @@ def set_attrs(tree):
         if isinstance(tgt, ast.Attribute):
             if ann is not None and ast.unparse(ann).startswith(("Set[", "set[", "typing.Set[")):
                 names.add(tgt.attr)
+            if (ann is not None and "Set[" in ast.unparse(ann) and ast.unparse(ann).startswith(("Dict[", "dict[", "DefaultDict[", "defaultdict["))) or \
+                    (isinstance(val, ast.Call) and ast.unparse(val.func).endswith("defaultdict") and val.args and ast.unparse(val.args[0]) == "set"):
+                DICT_OF_SETS.add(tgt.attr)
             if val is not None and is_set_expr(val, set()):
                 names.add(tgt.attr)
     return names
 
 
+DICT_OF_SETS = set()          # attribute names assigned `defaultdict(set)` / annotated Dict[.., Set[..]] somewhere in the scanned modules (filled by set_attrs)
+
+
 def is_set_expr(e, setattrs, localsets=()):
     if isinstance(e, (ast.Set, ast.SetComp)):
         return True
+    if isinstance(e, ast.Subscript) and isinstance(e.value, ast.Attribute) and e.value.attr in DICT_OF_SETS:
+        return True               # one value of a dictionary of sets
     if isinstance(e, ast.Call):
         f = e.func
         name = f.id if isinstance(f, ast.Name) else (f.attr if isinstance(f, ast.Attribute) else None)
@@ -349,3 +357,40 @@ def template_obligations(prop="C12"):
     except Exception as e:
         out.append(OR(id=f"{prop}.S.templates.loops_over_sets", status=UNKNOWN, kind="S", target="ford/templates", detail=f"{type(e).__name__}: {e}"))
     return out
+
+
+def serial_parallel_agreement(prop="C12"):
+    """GraphManager.output_graphs has one branch for `parallel: 0` and one that hands the graphs to worker processes.  The output must not depend on the number of workers:
+    for every collection the two branches save the same graphs.  Both sides are read from the AST: (collection, graph attribute) pairs of `x.<g>graph.create_svg(...)` in the
+    loops of the serial branch, and of the tuples `(x.<g>graph, ..., self.graphdir) for x in self.<collection>` of the other."""
+    try:
+        fn = loader.find_def("ford.graphs", "GraphManager.output_graphs")
+    except loader.TargetMissing as e:
+        return [OR(id=f"{prop}.S.graphs.output_graphs.serial_and_parallel_save_the_same_graphs", status=UNKNOWN, kind="S", target="ford.graphs.GraphManager.output_graphs", detail=str(e))]
+    br = [n for n in fn.body if isinstance(n, ast.If) and "njobs" in ast.unparse(n.test)]
+    oid = f"{prop}.S.graphs.output_graphs.serial_and_parallel_save_the_same_graphs"
+    if len(br) != 1 or not br[0].orelse:
+        return [OR(id=oid, status=UNKNOWN, kind="S", target="ford.graphs.GraphManager.output_graphs", detail="`if njobs == 0: ... else: ...` not found")]
+    serial, par = set(), set()
+    for loop in [n for n in ast.walk(ast.Module(body=br[0].body, type_ignores=[])) if isinstance(n, ast.For)]:
+        coll = ast.unparse(loop.iter)
+        var = loop.target.id if isinstance(loop.target, ast.Name) else None
+        for c in ast.walk(loop):
+            if isinstance(c, ast.Call) and isinstance(c.func, ast.Attribute) and c.func.attr == "create_svg" and isinstance(c.func.value, ast.Attribute) \
+                    and isinstance(c.func.value.value, ast.Name) and c.func.value.value.id == var:
+                serial.add((coll, c.func.value.attr))
+    for comp in [n for n in ast.walk(ast.Module(body=br[0].orelse, type_ignores=[])) if isinstance(n, ast.ListComp)]:
+        g = comp.generators[0]
+        coll = ast.unparse(g.iter)
+        var = g.target.id if isinstance(g.target, ast.Name) else None
+        if isinstance(comp.elt, ast.Tuple):
+            for e in comp.elt.elts:
+                if isinstance(e, ast.Attribute) and isinstance(e.value, ast.Name) and e.value.id == var and e.attr.endswith("graph"):
+                    par.add((coll, e.attr))
+    ok = bool(serial) and serial == par
+    r = OR(id=oid, status=PROVED if ok else REFUTED, kind="S", role="post", backend="ast", target="ford.graphs.GraphManager.output_graphs",
+           desc=f"the serial branch and the worker branch save the same {len(serial)} (collection, graph) pairs")
+    if not ok:
+        r.witness = {"only_serial": sorted(serial - par), "only_parallel": sorted(par - serial)}
+        r.detail = "the set of graph files written depends on the `parallel` setting"
+    return [r]
